@@ -217,6 +217,11 @@ def wide_portfolio_script(rng):
             p2 = bw.rand_price(rng)
             fills.append([a, q2, p2, round(abs(q2 * p2) * rng.choice([0.0, 0.001, 0.01]) + rng.choice([0.0, 1.0]), 4)])
     marks = {'EQ:W%02d' % i: bw.rand_price(rng) for i in range(n) if rng.random() < 0.7}
+    if rng.random() < 0.5:
+        # two share classes / a duplicated series: the same fills at the same prices, the same mark - equal figures
+        fills += [['EQ:W00B', q, p, c] for a, q, p, c in fills if a == 'EQ:W00']
+        if 'EQ:W00' in marks:
+            marks['EQ:W00B'] = marks['EQ:W00']
     return {'start': rng.choice(bw.STARTS), 'fills': fills, 'marks': marks}
 
 
